@@ -26,6 +26,7 @@ func init() {
 				N:     sys.n()/2 + size(tier, 100000, 1000000),
 				Setup: func(c *harness.Ctx) { hooksOn() },
 				Run: func(c *harness.Ctx, k int) {
+					hooksAlternate(k)
 					var d *diffCase
 					if k < sys.n()/2 {
 						d = sys.get(k * 2)
